@@ -205,7 +205,7 @@ class WSStream:
         self.context = context
         self.remote_close_code: Optional[int] = None
         self.task_group = task_group
-        self.response: WebsocketResponseStartEvent
+        self.response: Optional[WebsocketResponseStartEvent] = None
         self.scope: Optional[WebsocketScope] = None
         self.send = send
         # RFC 8441 for HTTP/2 says use http or https, ASGI says ws or wss
@@ -315,11 +315,16 @@ class WSStream:
                 await self._send_wsproto_event(CloseConnection(code=CloseReason.INTERNAL_ERROR))
             await self.send(StreamClosed(stream_id=self.stream_id))
         else:
-            if message["type"] == "websocket.accept" and self.state == ASGIWebsocketState.HANDSHAKE:
+            if (
+                message["type"] == "websocket.accept"
+                and self.state == ASGIWebsocketState.HANDSHAKE
+                and self.response is None
+            ):
                 await self._accept(message)
             elif (
                 message["type"] == "websocket.http.response.start"
                 and self.state == ASGIWebsocketState.HANDSHAKE
+                and self.response is None  # Otherwise it is a second start
             ):
                 self.response = message
             elif message["type"] == "websocket.http.response.body" and self.state in {
